@@ -164,6 +164,7 @@ def shards(tier, seed):
     out += [("redirect", i) for i in range(len(URL_ALPHA))]
     out.append(("coldstart",))
     out.append(("sharedpair",))
+    out.append(("preloaded",))
     return out
 
 
@@ -265,6 +266,40 @@ def shared_pairs(r, tier):
     r.sample({"sharedpair": SHARED_OPS, "preemption_bound": 1 if tier == "quick" else 2})
 
 
+def preloaded(r):
+    """A mapping that already holds a name with CR, LF or NUL (handed to the constructor, which this property does not speak
+    about): storing that name *again* through a mutating operation is a mutation like any other and is refused."""
+    from baize.datastructures import MutableHeaders
+    for iface in ("wsgi", "asgi"):
+        mod = __import__("baize.wsgi" if iface == "wsgi" else "baize.asgi", fromlist=["Response"])
+        for bad in ("x-a\r\nset-cookie: evil=1", "x\nb", "x\0b", "x-a\r"):
+            for spell in (str, str.upper, str.title):
+                for source in ("mapping", "response"):
+                    for op in SHARED_OPS:
+                        h = MutableHeaders({bad: "1"}) if source == "mapping" else mod.Response(200, {bad: "1"}).headers
+                        name = spell(bad)
+                        r.count("evaluations")
+                        r.count("distinct_nontrivial")
+                        try:
+                            if op == "setitem":
+                                h[name] = "v"
+                            elif op == "append":
+                                h.append(name, "v")
+                            elif op == "update":
+                                h.update({name: "v"})
+                            else:
+                                h.setdefault(name, "v")
+                            out = "accepted"
+                        except ValueError:
+                            out = "refused"
+                        except Exception as e:  # noqa
+                            out = f"raised {type(e).__name__}"
+                        if out != "refused" and not (op == "setdefault" and out == "accepted" and name.lower() == bad.lower()):
+                            r.violation(f"preloaded:{op}", {"kind": "preloaded", "iface": iface, "name": bad, "op": op, "source": source},
+                                        f"{iface} {source} constructed with the header name {bad!r}; headers.{op}({name!r}, 'v') afterwards was {out}, not refused")
+    r.sample({"preloaded": "names with CR/LF/NUL handed to the constructor, then stored again"})
+
+
 def bad_chars(line):
     return any(c in line for c in "\r\n\0")
 
@@ -283,6 +318,9 @@ def run_shard(desc, tier):
         return fresh.call(__name__, ("coldstart-run",), tier)
     if desc[0] == "sharedpair":
         shared_pairs(r, tier)
+        return r
+    if desc[0] == "preloaded":
+        preloaded(r)
         return r
     if desc[0] == "headers":
         iface, ii = desc[1], desc[2]
@@ -616,6 +654,11 @@ def finish(merged, tier):
 
 def replay(w):
     r = R()
+    if w["kind"] == "preloaded":
+        rr = R()
+        preloaded(rr)
+        hits = {k: v for k, v in rr.viol.items() if v[1].get("op") == w["op"]}
+        return bool(hits), {"violations": sorted(hits), "texts": [v[2][:200] for v in hits.values()]}
     if w["kind"] == "sharedpair":
         # (the schedule belongs to the tree it was found on: the pair is explored again rather than one schedule re-run)
         rr = R()
